@@ -142,6 +142,9 @@ type Config struct {
 	// GateOnly: the file system is a composition whose mutating operations need not follow FSCore for valid names
 	// (read-only views, mount points): for valid names a mutator is only required not to be refused as invalid.
 	GateOnly bool
+	// InvalidOnly: the file system is deliberately in a failed state; only calls with invalid names are judged (they
+	// must be refused with ErrInvalid), valid names and the state are not compared.
+	InvalidOnly bool
 	// CheckRootName: compare the Name() Stat reports for "." (only meaningful for the plain in-memory file systems).
 	CheckRootName bool
 	// MkFSFrom, when set, builds the file system from the initial model tree itself (read-only compositions).
@@ -480,6 +483,16 @@ func (in *Inst) CheckResult(call, tr *tla.Value, obsAny any) []engine.Div {
 		// the file system does not offer this operation at all (also not for valid names)
 		return divs
 	}
+	if cfg.InvalidOnly {
+		in.dirty, in.skipState = true, true
+		if !strings.HasPrefix(tr.F("b").S, "invalid/") {
+			return nil
+		}
+		if o.Kind != "EINVAL" && !(o.Kind == "ENOSYS" && !in.offered(call)) {
+			add(cfg.PropState, "exp=EINVAL got="+o.Kind, o.String())
+		}
+		return divs
+	}
 	if cfg.RawNames && strings.HasPrefix(tr.F("b").S, "valid/") {
 		// C04 judges valid names only for its own clause: bytes such as backslash, colon or a leading ".." are
 		// ordinary name bytes. Plain names are the business of C01/C06/C07 (checked elsewhere).
@@ -768,6 +781,9 @@ func NewProbe(cfg *Config, fs hackpadfs.FS) *Inst { return &Inst{cfg: cfg, fs: f
 // CompareTree projects fs over the closure and compares it with the model tree exp;
 // tag is prepended to the class of each disagreement (e.g. the constituent FS it was seen in).
 func (in *Inst) CompareTree(fs hackpadfs.FS, exp *tla.Value, call, tr *tla.Value, tag string) []engine.Div {
+	if in.cfg.InvalidOnly {
+		return nil
+	}
 	if in.skipState {
 		in.skipState = false
 		return nil
